@@ -54,6 +54,9 @@ def parser_tie(res, seed, n, dist):
     for i in range(max(40, n // 2)):
         isrc, iok = D.gen_item(rng2, i)
         items.append((f"I{i}", isrc, iok)); k = 'item_in_grammar' if iok else 'item_outside_grammar'; dist[k] = dist.get(k, 0) + 1
+    for i in range(max(20, n // 4)):
+        isrc, iok = D.gen_enum_item(rng2, i)
+        items.append((f"N{i}", isrc, iok)); k = 'enum_item_in_grammar' if iok else 'enum_item_outside_grammar'; dist[k] = dist.get(k, 0) + 1
     src = ("#![allow(dead_code)]\nuse pd::DumpParse;\n" + ''.join(f"#[derive(DumpParse)]\npub struct {n_}<'a, T, U, const N: usize> {{ f: {t} }}\n" for n_, t, _ in types)
            + ''.join(f"#[derive(DumpParse)]\n{isrc}\n" for _, isrc, _ in items))
     put(os.path.join(crate, 'src', 'lib.rs'), src)
@@ -138,7 +141,7 @@ def parser_tie(res, seed, n, dist):
         mi = model_item.get(name)
         if not drv or mi is None: continue
         nit += 1
-        iu = 'UNSUP' if ('UnsupCat' in ii or ' as)' in ii or ii == 'ENUM') else ii
+        iu = 'UNSUP' if ('UnsupCat' in ii or ' as)' in ii) else ii
         if mi != iu and not (mi in ('UNSUP', 'PANIC') and iu in ('UNSUP', 'PANIC') and not ok):
             nd += 1
             if nd == 1:
